@@ -1,12 +1,947 @@
-//! stub: property C08 has no correspondence harness yet
+//! C08 — HTTP/2 responses complete and well-described under any flow-control schedule.
+//!
+//! Real code: `HttpService::build().h2(handler)` over `tokio::io::duplex`, the `h2` crate's client as
+//! peer, inside a fresh `actix_rt::System` with the tokio clock paused (a stalled connection makes
+//! the virtual clock jump, so "nothing released for a while" and HANG detection are deterministic
+//! and instantaneous).
+//!
+//! Case line (space separated tokens, any token may be deleted by the shrinker):
+//!   `[raw] w=<stream window> cw=<connection window> sw=<server stream window> pipe=<duplex buffer> s:<m>:<status>:<kind>:<items>:<hdrs>:<client>` …
+//!   m      G | H | P<n> (POST with an n-byte request body that the handler reads to the end first)
+//!   kind   n (body::None)  u (`()`)  b (Bytes)  ss (SizedStream)  bs (BodyStream)
+//!          xs (raw MessageBody, BodySize::Stream)  xz (raw MessageBody, BodySize::Sized(total))
+//!   items  `.`-separated: <len> chunk of that many bytes | p Pending once | e body error | - none
+//!   hdrs   `,`-separated name=value set by the handler, `-` none
+//!   client `.`-separated: a release every chunk at once | b<n> release when ≥ n bytes are unreleased or
+//!          when the connection has stalled | d<ms> virtual delay before a stalled stream releases |
+//!          r<k> RST_STREAM once ≥ k body bytes were received (r0: right after the response head) |
+//!          h never release capacity on this stream (ends `held` when the body does not fit the window)
+//! Output: one `;`-separated record per stream `k=<status>|<headers sorted by name>|<len>|<fnv32>|<end>`,
+//! end ∈ eos | err | rst | held | hang (len/hash only for eos).
+use std::{
+    cell::RefCell,
+    collections::VecDeque,
+    convert::Infallible,
+    pin::Pin,
+    rc::Rc,
+    task::{Context, Poll},
+    time::Duration,
+};
+
+use actix_http::{
+    body::{BodySize, BodyStream, BoxBody, MessageBody, SizedStream},
+    HttpService, KeepAlive, Request, Response, StatusCode,
+};
+use actix_service::{fn_service, Service as _, ServiceFactory as _};
+use bytes::Bytes;
+use futures_core::Stream;
+use futures_util::StreamExt as _;
+
 use super::Prop;
-use crate::common::CaseResult;
+use crate::common::{CaseResult, Ctx, Rng, Tier};
+
+const RULE: &str = "cases = one HTTP/2 connection each: client stream window w ∈ {1,7,16384,65535,…}, connection window, \
+duplex pipe size, 1–4 concurrent streams; per stream a scripted handler (method GET/HEAD/POST, status incl. 204/304/1xx, \
+body kind None/()/Bytes/SizedStream/BodyStream/raw MessageBody with chunk lists incl. empty chunks, chunks larger than the \
+window and CHUNK_SIZE, Pending, body error; handler headers incl. connection-specific ones and content-length) and a scripted \
+client (release per chunk / in batches / only when stalled, RST_STREAM after k bytes). non-trivial = at least one stream \
+delivered a non-empty body or was reset/errored mid-body; distinct = distinct (case, output) hashes";
+
+// ---------------------------------------------------------------------------------------------
+// case grammar
+
+#[derive(Clone, Debug, PartialEq)]
+enum Item {
+    Chunk(usize),
+    Pend,
+    Err,
+}
+
+#[derive(Clone, Debug, PartialEq)]
+enum Kind {
+    None,
+    Unit,
+    Bytes,
+    SizedStream,
+    BodyStream,
+    RawStream,
+    RawSized,
+}
+
+#[derive(Clone, Debug)]
+struct Spec {
+    head: bool,
+    post: Option<usize>,
+    status: u16,
+    kind: Kind,
+    items: Vec<Item>,
+    hdrs: Vec<(String, String)>,
+    batch: Option<usize>,
+    delay_ms: u64,
+    reset_at: Option<usize>,
+    /// the client never releases capacity on this stream (and resets it once it is clear nothing more comes)
+    hold: bool,
+}
+
+#[derive(Clone, Debug)]
+struct Case {
+    w: u32,
+    cw: u32,
+    /// server-side (receive) stream window, for request bodies
+    sw: u32,
+    pipe: usize,
+    /// contract-sampling mode: the peer of the client is a bare `h2` server running a transliteration of
+    /// the model's send loop, instrumented to log every (reserved, granted) pair
+    raw: bool,
+    streams: Vec<Spec>,
+}
+
+fn parse_spec(tok: &str) -> Option<Spec> {
+    let f: Vec<&str> = tok.split(':').collect();
+    if f.len() != 7 || f[0] != "s" {
+        return None;
+    }
+    let (head, post) = match f[1] {
+        "G" => (false, None),
+        "H" => (true, None),
+        m if m.starts_with('P') => (false, Some(m[1..].parse().ok()?)),
+        _ => return None,
+    };
+    let status: u16 = f[2].parse().ok()?;
+    // 1xx as a *final* status is refused by every conforming HTTP/2 client (h2: PROTOCOL_ERROR), so the
+    // harness cannot observe it; the Lean model keeps those branches, see docs/C08.md
+    if !(200..=599).contains(&status) {
+        return None;
+    }
+    let kind = match f[3] {
+        "n" => Kind::None,
+        "u" => Kind::Unit,
+        "b" => Kind::Bytes,
+        "ss" => Kind::SizedStream,
+        "bs" => Kind::BodyStream,
+        "xs" => Kind::RawStream,
+        "xz" => Kind::RawSized,
+        _ => return None,
+    };
+    let mut items = Vec::new();
+    if f[4] != "-" {
+        for it in f[4].split('.') {
+            items.push(match it {
+                "p" => Item::Pend,
+                "e" => Item::Err,
+                n => Item::Chunk(n.parse().ok()?),
+            });
+        }
+    }
+    let mut hdrs = Vec::new();
+    if f[5] != "-" {
+        for h in f[5].split(',') {
+            let (n, v) = h.split_once('=')?;
+            hdrs.push((n.to_owned(), v.to_owned()));
+        }
+    }
+    let (mut batch, mut delay_ms, mut reset_at, mut hold) = (None, 10, None, false);
+    for c in f[6].split('.') {
+        match c.as_bytes().first() {
+            Some(b'a') => batch = None,
+            Some(b'h') if c == "h" => hold = true,
+            Some(b'b') => batch = Some(c[1..].parse().ok()?),
+            Some(b'd') => delay_ms = c[1..].parse().ok()?,
+            Some(b'r') => reset_at = Some(c[1..].parse().ok()?),
+            _ => return None,
+        }
+    }
+    Some(Spec { head, post, status, kind, items, hdrs, batch, delay_ms, reset_at, hold })
+}
+
+fn parse_case(line: &str) -> Option<Case> {
+    let mut c = Case { w: 65_535, cw: 65_535, sw: 65_535, pipe: 65_536, raw: false, streams: vec![] };
+    for tok in line.split_ascii_whitespace() {
+        if let Some(v) = tok.strip_prefix("w=") {
+            c.w = v.parse().ok()?;
+        } else if let Some(v) = tok.strip_prefix("cw=") {
+            c.cw = v.parse().ok()?;
+        } else if let Some(v) = tok.strip_prefix("sw=") {
+            c.sw = v.parse().ok()?;
+        } else if tok == "raw" {
+            c.raw = true;
+        } else if let Some(v) = tok.strip_prefix("pipe=") {
+            c.pipe = v.parse().ok()?;
+        } else {
+            c.streams.push(parse_spec(tok)?);
+        }
+    }
+    if c.w == 0 || c.sw == 0 || c.pipe == 0 || c.streams.len() > 8 {
+        return None;
+    }
+    Some(c)
+}
+
+/// deterministic body content: byte `j` of the body of stream `k` (same formula in Drv/C08.lean)
+fn content_byte(k: usize, j: usize) -> u8 {
+    ((j * 7 + k * 13 + j / 251) % 256) as u8
+}
+
+fn content(k: usize, from: usize, len: usize) -> Bytes {
+    Bytes::from((from..from + len).map(|j| content_byte(k, j)).collect::<Vec<u8>>())
+}
+
+fn fnv32(bs: &[u8]) -> u32 {
+    let mut h: u32 = 2_166_136_261;
+    for b in bs {
+        h ^= *b as u32;
+        h = h.wrapping_mul(16_777_619);
+    }
+    h
+}
+
+// ---------------------------------------------------------------------------------------------
+// scripted bodies
+
+enum Ev {
+    Chunk(Bytes),
+    Pend,
+    Err,
+}
+
+fn script(k: usize, items: &[Item]) -> VecDeque<Ev> {
+    let mut off = 0;
+    items
+        .iter()
+        .map(|it| match it {
+            Item::Chunk(n) => {
+                let b = content(k, off, *n);
+                off += n;
+                Ev::Chunk(b)
+            }
+            Item::Pend => Ev::Pend,
+            Item::Err => Ev::Err,
+        })
+        .collect()
+}
+
+fn total(items: &[Item]) -> usize {
+    items.iter().map(|i| if let Item::Chunk(n) = i { *n } else { 0 }).sum()
+}
+
+fn poll_script(q: &mut VecDeque<Ev>, cx: &mut Context<'_>) -> Poll<Option<Result<Bytes, std::io::Error>>> {
+    match q.pop_front() {
+        None => Poll::Ready(None),
+        Some(Ev::Chunk(b)) => Poll::Ready(Some(Ok(b))),
+        Some(Ev::Pend) => {
+            cx.waker().wake_by_ref();
+            Poll::Pending
+        }
+        Some(Ev::Err) => {
+            q.clear();
+            Poll::Ready(Some(Err(std::io::Error::new(std::io::ErrorKind::Other, "scripted body error"))))
+        }
+    }
+}
+
+/// a `Stream` for BodyStream / SizedStream
+struct ScriptStream(VecDeque<Ev>);
+
+impl Stream for ScriptStream {
+    type Item = Result<Bytes, std::io::Error>;
+    fn poll_next(self: Pin<&mut Self>, cx: &mut Context<'_>) -> Poll<Option<Self::Item>> {
+        poll_script(&mut self.get_mut().0, cx)
+    }
+}
+
+/// a `MessageBody` that hands its chunks (including empty ones) to the sender unfiltered
+struct RawBody {
+    size: BodySize,
+    q: VecDeque<Ev>,
+}
+
+impl MessageBody for RawBody {
+    type Error = std::io::Error;
+    fn size(&self) -> BodySize {
+        self.size
+    }
+    fn poll_next(self: Pin<&mut Self>, cx: &mut Context<'_>) -> Poll<Option<Result<Bytes, Self::Error>>> {
+        poll_script(&mut self.get_mut().q, cx)
+    }
+}
+
+fn build_response(k: usize, s: &Spec) -> Response<BoxBody> {
+    let mut rb = Response::build(StatusCode::from_u16(s.status).unwrap_or(StatusCode::OK));
+    for (n, v) in &s.hdrs {
+        rb.append_header((n.as_str(), v.as_str()));
+    }
+    let tot = total(&s.items);
+    let body = match s.kind {
+        Kind::None => BoxBody::new(actix_http::body::None::new()),
+        Kind::Unit => BoxBody::new(()),
+        Kind::Bytes => BoxBody::new(content(k, 0, tot)),
+        Kind::SizedStream => BoxBody::new(SizedStream::new(tot as u64, ScriptStream(script(k, &s.items)))),
+        Kind::BodyStream => BoxBody::new(BodyStream::new(ScriptStream(script(k, &s.items)))),
+        Kind::RawStream => BoxBody::new(RawBody { size: BodySize::Stream, q: script(k, &s.items) }),
+        Kind::RawSized => BoxBody::new(RawBody { size: BodySize::Sized(tot as u64), q: script(k, &s.items) }),
+    };
+    rb.message_body(body).unwrap_or_else(|_| Response::new(StatusCode::INTERNAL_SERVER_ERROR).map_into_boxed_body())
+}
+
+// ---------------------------------------------------------------------------------------------
+// the run
+
+#[derive(Clone, Debug, Default)]
+struct Got {
+    status: u16,
+    hdrs: Vec<(String, String)>,
+    body: Vec<u8>,
+    end: &'static str,
+    head_seen: bool,
+    detail: String,
+}
+
+const STALL_LIMIT: usize = 40;
+
+async fn client_stream(
+    spec: Spec,
+    resp: h2::client::ResponseFuture,
+    mut tx: h2::SendStream<Bytes>,
+    got: Rc<RefCell<Got>>,
+) {
+    // request body (POST): send as capacity allows
+    if let Some(n) = spec.post {
+        let mut rest = Bytes::from(vec![0x55u8; n]);
+        while !rest.is_empty() {
+            tx.reserve_capacity(rest.len());
+            match std::future::poll_fn(|cx| tx.poll_capacity(cx)).await {
+                Some(Ok(c)) => {
+                    let part = rest.split_to(c.min(rest.len()));
+                    if tx.send_data(part, false).is_err() {
+                        break;
+                    }
+                }
+                _ => break,
+            }
+        }
+        let _ = tx.send_data(Bytes::new(), true);
+    }
+    let resp = match tokio::time::timeout(Duration::from_secs(30), resp).await {
+        Err(_) => {
+            got.borrow_mut().end = "hang";
+            return;
+        }
+        Ok(Err(e)) => {
+            let mut g = got.borrow_mut();
+            g.end = "err";
+            g.detail = format!("response: {e}");
+            return;
+        }
+        Ok(Ok(r)) => r,
+    };
+    let (parts, mut body) = resp.into_parts();
+    {
+        let mut g = got.borrow_mut();
+        g.head_seen = true;
+        g.status = parts.status.as_u16();
+        for (n, v) in parts.headers.iter() {
+            g.hdrs.push((n.as_str().to_owned(), String::from_utf8_lossy(v.as_bytes()).into_owned()));
+        }
+    }
+    if spec.reset_at == Some(0) {
+        tx.send_reset(h2::Reason::CANCEL);
+        got.borrow_mut().end = "rst";
+        return;
+    }
+    let mut unreleased = 0usize;
+    let mut stalls = 0usize;
+    loop {
+        match tokio::time::timeout(Duration::from_millis(spec.delay_ms.max(1)), body.data()).await {
+            Ok(Some(Ok(chunk))) => {
+                stalls = 0;
+                unreleased += chunk.len();
+                let n = {
+                    let mut g = got.borrow_mut();
+                    g.body.extend_from_slice(&chunk);
+                    g.body.len()
+                };
+                if let Some(k) = spec.reset_at {
+                    if n >= k {
+                        tx.send_reset(h2::Reason::CANCEL);
+                        got.borrow_mut().end = "rst";
+                        return;
+                    }
+                }
+                let rel = !spec.hold
+                    && match spec.batch {
+                        None => true,
+                        Some(b) => unreleased >= b,
+                    };
+                if rel && unreleased > 0 {
+                    let _ = body.flow_control().release_capacity(unreleased);
+                    unreleased = 0;
+                }
+            }
+            Ok(Some(Err(e))) => {
+                let mut g = got.borrow_mut();
+                g.end = "err";
+                g.detail = format!("data: {e}");
+                return;
+            }
+            Ok(None) => {
+                got.borrow_mut().end = "eos";
+                return;
+            }
+            Err(_) => {
+                // the whole connection was idle for `delay` of virtual time
+                if spec.hold {
+                    stalls += 1;
+                    if stalls * (spec.delay_ms.max(1) as usize) >= 5_000 {
+                        tx.send_reset(h2::Reason::CANCEL);
+                        got.borrow_mut().end = "held";
+                        return;
+                    }
+                } else if unreleased > 0 {
+                    let _ = body.flow_control().release_capacity(unreleased);
+                    unreleased = 0;
+                    stalls = 0;
+                } else {
+                    stalls += 1;
+                    if stalls * (spec.delay_ms.max(1) as usize) >= STALL_LIMIT * 1000 || stalls >= 2000 {
+                        got.borrow_mut().end = "hang";
+                        return;
+                    }
+                }
+            }
+        }
+    }
+}
+
+type PollLog = Rc<RefCell<Vec<(usize, usize, usize)>>>;
+
+/// `Model.H2.adjustSize` + `isEof` (only what decides whether there is a body phase)
+fn raw_body_phase(s: &Spec) -> bool {
+    if s.head || s.status == 204 || s.status == 304 {
+        return false;
+    }
+    match s.kind {
+        Kind::None | Kind::Unit => false,
+        Kind::Bytes | Kind::SizedStream | Kind::RawSized => total(&s.items) != 0,
+        Kind::BodyStream | Kind::RawStream => true,
+    }
+}
+
+/// `Model.H2.sendBody` / `sendChunk` transliterated, against a real `h2` stream; logs (stream, reserved, granted)
+async fn raw_handle(k: usize, s: Spec, mut tx: h2::server::SendResponse<Bytes>, log: PollLog) {
+    let phase = raw_body_phase(&s);
+    let res = http::Response::builder().status(s.status).body(()).unwrap();
+    let Ok(mut stream) = tx.send_response(res, !phase) else { return };
+    if !phase {
+        return;
+    }
+    let items: Vec<Ev> = match s.kind {
+        Kind::Bytes => vec![Ev::Chunk(content(k, 0, total(&s.items)))],
+        _ => script(k, &s.items).into_iter().collect(),
+    };
+    for it in items {
+        let mut chunk = match it {
+            Ev::Pend => {
+                tokio::task::yield_now().await;
+                continue;
+            }
+            Ev::Err => return,
+            Ev::Chunk(b) => b,
+        };
+        if chunk.is_empty() {
+            continue;
+        }
+        loop {
+            let want = chunk.len().min(16_384);
+            stream.reserve_capacity(want);
+            match std::future::poll_fn(|cx| stream.poll_capacity(cx)).await {
+                None => return,
+                Some(Err(_)) => return,
+                Some(Ok(cap)) => {
+                    log.borrow_mut().push((k, want, cap));
+                    let n = chunk.len().min(cap);
+                    if stream.send_data(chunk.split_to(n), false).is_err() {
+                        return;
+                    }
+                    if chunk.is_empty() {
+                        break;
+                    }
+                }
+            }
+        }
+    }
+    let _ = stream.send_data(Bytes::new(), true);
+}
+
+async fn raw_server(io: tokio::io::DuplexStream, specs: Rc<Vec<Spec>>, sw: u32, log: PollLog) {
+    let mut b = h2::server::Builder::new();
+    b.initial_window_size(sw);
+    let Ok(mut conn) = b.handshake::<_, Bytes>(io).await else { return };
+    while let Some(Ok((req, tx))) = conn.accept().await {
+        let k: usize = req.uri().path().trim_start_matches('/').parse().unwrap_or(0);
+        let Some(spec) = specs.get(k).cloned() else { continue };
+        let log = log.clone();
+        actix_rt::spawn(async move {
+            let mut body = req.into_body();
+            while let Some(Ok(d)) = body.data().await {
+                let _ = body.flow_control().release_capacity(d.len());
+            }
+            raw_handle(k, spec, tx, log).await;
+        });
+    }
+}
+
+async fn scenario(case: Case) -> (Vec<Got>, Vec<(usize, usize, usize)>) {
+    let log: PollLog = Rc::new(RefCell::new(Vec::new()));
+    let gots = scenario_inner(case, log.clone()).await;
+    let polls = log.borrow().clone();
+    (gots, polls)
+}
+
+async fn scenario_inner(case: Case, log: PollLog) -> Vec<Got> {
+    tokio::time::pause();
+    let specs = Rc::new(case.streams.clone());
+    let hspecs = specs.clone();
+    let factory = HttpService::build()
+        .keep_alive(KeepAlive::Disabled)
+        .client_request_timeout(Duration::ZERO)
+        .client_disconnect_timeout(Duration::ZERO)
+        .h2_initial_window_size(case.sw)
+        .h2(fn_service(move |mut req: Request| {
+            let specs = hspecs.clone();
+            async move {
+                let k: usize = req.path().trim_start_matches('/').parse().unwrap_or(0);
+                let spec = specs.get(k).cloned();
+                if req.method() == actix_http::Method::POST {
+                    // read the request body to its end (Payload::poll_next releases the window)
+                    let mut pl = req.take_payload();
+                    while let Some(item) = pl.next().await {
+                        if item.is_err() {
+                            break;
+                        }
+                    }
+                }
+                let res = match spec {
+                    Some(s) => build_response(k, &s),
+                    None => Response::new(StatusCode::NOT_FOUND).map_into_boxed_body(),
+                };
+                Ok::<_, Infallible>(res)
+            }
+        }));
+    let svc = match factory.new_service(()).await {
+        Ok(s) => s,
+        Err(_) => return vec![],
+    };
+    let (cio, sio) = tokio::io::duplex(case.pipe);
+    let server = if case.raw {
+        actix_rt::spawn(raw_server(sio, specs.clone(), case.sw, log))
+    } else {
+        actix_rt::spawn(async move {
+            let _ = svc.call((sio, None)).await;
+        })
+    };
+    let gots: Vec<Rc<RefCell<Got>>> = specs.iter().map(|_| Rc::new(RefCell::new(Got::default()))).collect();
+    let hs = h2::client::Builder::new()
+        .initial_window_size(case.w)
+        .initial_connection_window_size(case.cw)
+        .handshake::<_, Bytes>(cio);
+    let (mut send_req, conn) = match tokio::time::timeout(Duration::from_secs(30), hs).await {
+        Ok(Ok(x)) => x,
+        _ => {
+            return gots
+                .iter()
+                .map(|g| {
+                    let mut g = g.borrow().clone();
+                    g.end = "hang";
+                    g.detail = "handshake".into();
+                    g
+                })
+                .collect()
+        }
+    };
+    let conn_task = actix_rt::spawn(async move {
+        let _ = conn.await;
+    });
+    let mut tasks = Vec::new();
+    for (k, spec) in specs.iter().enumerate() {
+        let method = if spec.head {
+            http::Method::HEAD
+        } else if spec.post.is_some() {
+            http::Method::POST
+        } else {
+            http::Method::GET
+        };
+        let req = http::Request::builder().method(method).uri(format!("http://localhost/{k}")).body(()).unwrap();
+        let ready = tokio::time::timeout(Duration::from_secs(30), std::future::poll_fn(|cx| send_req.poll_ready(cx))).await;
+        if !matches!(ready, Ok(Ok(()))) {
+            gots[k].borrow_mut().end = "hang";
+            gots[k].borrow_mut().detail = "send_request not ready".into();
+            continue;
+        }
+        match send_req.send_request(req, spec.post.is_none()) {
+            Ok((resp, tx)) => {
+                tasks.push(actix_rt::spawn(client_stream(spec.clone(), resp, tx, gots[k].clone())));
+            }
+            Err(e) => {
+                let mut g = gots[k].borrow_mut();
+                g.end = "err";
+                g.detail = format!("send_request: {e}");
+            }
+        }
+    }
+    for t in tasks {
+        let _ = t.await;
+    }
+    drop(send_req);
+    conn_task.abort();
+    server.abort();
+    gots.iter()
+        .map(|g| {
+            let mut g = g.borrow().clone();
+            if g.end.is_empty() {
+                g.end = "hang";
+            }
+            g
+        })
+        .collect()
+}
+
+// ---------------------------------------------------------------------------------------------
+// canonical output + oracle
+
+fn is_http_date(v: &str) -> bool {
+    v.len() == 29 && v.ends_with(" GMT")
+}
+
+fn show_headers(h: &[(String, String)]) -> String {
+    let mut idx: Vec<usize> = (0..h.len()).collect();
+    idx.sort_by(|&a, &b| h[a].0.cmp(&h[b].0).then(a.cmp(&b)));
+    let parts: Vec<String> = idx
+        .iter()
+        .map(|&i| {
+            let (n, v) = &h[i];
+            if n == "date" && is_http_date(v) {
+                "date=@".to_owned()
+            } else {
+                format!("{n}={v}")
+            }
+        })
+        .collect();
+    if parts.is_empty() {
+        "-".to_owned()
+    } else {
+        parts.join(",")
+    }
+}
+
+fn show(k: usize, s: &Spec, g: &Got, raw: bool) -> String {
+    let show_headers = |h: &[(String, String)]| if raw { "*".to_owned() } else { show_headers(h) };
+    // a stream that is both reset by the client and failed by its body ends whichever comes first
+    let racy = s.reset_at.is_some() && s.items.contains(&Item::Err);
+    match g.end {
+        "eos" => format!("{k}={}|{}|{}|{:08x}|eos", g.status, show_headers(&g.hdrs), g.body.len(), fnv32(&g.body)),
+        "rst" | "err" | "held" if g.head_seen => {
+            format!("{k}={}|{}|{}", g.status, show_headers(&g.hdrs), if racy { "abort" } else { g.end })
+        }
+        e => format!("{k}={e}"),
+    }
+}
+
+const CONN_SPECIFIC: &[&str] = &["connection", "transfer-encoding", "upgrade", "keep-alive", "proxy-connection"];
+
+fn bodiless(status: u16) -> bool {
+    (100..200).contains(&status) || status == 204 || status == 304
+}
+
+/// The property's own words evaluated on what the client saw, from the handler script alone.
+fn oracle(k: usize, s: &Spec, g: &Got, raw: bool, w: usize) -> Option<(String, String)> {
+    // what the handler's body produces
+    let err_at = s.items.iter().position(|i| *i == Item::Err);
+    let good = &s.items[..err_at.unwrap_or(s.items.len())];
+    let produced: Vec<u8> = match s.kind {
+        Kind::None | Kind::Unit => vec![],
+        Kind::Bytes => content(k, 0, total(&s.items)).to_vec(),
+        _ => content(k, 0, total(good)).to_vec(),
+    };
+    // a body that declares `Sized(0)` is empty by declaration and is never polled
+    let declared_empty = matches!(s.kind, Kind::SizedStream | Kind::RawSized) && total(&s.items) == 0;
+    let body_fails = err_at.is_some() && !matches!(s.kind, Kind::None | Kind::Unit | Kind::Bytes) && !declared_empty;
+    let no_body = s.head || bodiless(s.status);
+    let f = |sig: &str, d: String| Some((sig.to_owned(), format!("stream {k}: {d}")));
+    if g.end == "hang" {
+        return f("hang", format!("stream never completed ({})", g.detail));
+    }
+    if g.head_seen && !raw {
+        if g.status != s.status {
+            return f("status", format!("got {} want {}", g.status, s.status));
+        }
+        for (n, _) in &g.hdrs {
+            if CONN_SPECIFIC.contains(&n.as_str()) {
+                return f("conn-header", format!("connection-specific header `{n}` on an HTTP/2 response"));
+            }
+        }
+        // content-length, when one is sent, describes the handler's body
+        let cls: Vec<&String> = g.hdrs.iter().filter(|(n, _)| n == "content-length").map(|(_, v)| v).collect();
+        let declared = match s.kind {
+            Kind::Bytes => total(&s.items),
+            Kind::None | Kind::Unit => 0,
+            _ => total(&s.items),
+        };
+        for v in &cls {
+            // 304: a handler-set content-length describes the representation a 200 would carry, not the
+            // (never sent) body of this response; it is passed through (same rule as the HTTP/1 encoder)
+            if s.status == 304 {
+                continue;
+            }
+            if v.parse::<usize>().ok() != Some(declared) {
+                return f("content-length", format!("content-length {v} but the handler's body has {declared} bytes"));
+            }
+        }
+        if cls.len() > 1 {
+            return f("content-length", format!("{} content-length headers", cls.len()));
+        }
+    }
+    if !produced.starts_with(&g.body) && !no_body {
+        return f("body-bytes", format!("received {} bytes that are not a prefix of the handler's {} bytes", g.body.len(), produced.len()));
+    }
+    match g.end {
+        "eos" => {
+            if s.hold && !no_body && produced.len() > w {
+                return f("window-overrun", format!("{} bytes delivered through a window of {w} that was never reopened", g.body.len()));
+            }
+            if no_body {
+                if !g.body.is_empty() {
+                    return f("body-on-bodiless", format!("{} body bytes on a {} response to {}", g.body.len(), s.status, if s.head { "HEAD" } else { "GET" }));
+                }
+            } else if body_fails {
+                return f("truncated-looks-complete", format!("handler body failed after {} bytes but the stream ended cleanly", produced.len()));
+            } else if g.body != produced {
+                return f("body-bytes", format!("received {} bytes, handler produced {}", g.body.len(), produced.len()));
+            }
+            None
+        }
+        "held" => {
+            // the client withheld the window: legitimate only if the body does not fit into it
+            if !s.hold || no_body || produced.len() <= w {
+                return f("stalled", format!("stream stalled after {} of {} bytes with an open window of {w}", g.body.len(), produced.len()));
+            }
+            None
+        }
+        "rst" => {
+            if s.reset_at.is_none() {
+                return f("unexpected-reset", "client did not reset this stream".into());
+            }
+            None
+        }
+        "err" => {
+            if body_fails && !no_body {
+                None
+            } else {
+                f("stream-error", format!("client saw a stream error on a healthy stream: {}", g.detail))
+            }
+        }
+        e => f("end", format!("unknown end state {e}")),
+    }
+}
+
+fn run(line: &str) -> CaseResult {
+    let Some(case) = parse_case(line) else {
+        return CaseResult { output: "bad-case".into(), fail: None, nontrivial: false, tags: vec!["bad-case".into()] };
+    };
+    let c2 = case.clone();
+    let (gots, polls) = crate::common::block_on_system(async move { scenario(c2).await });
+    if gots.len() != case.streams.len() {
+        return CaseResult { output: "setup-failed".into(), fail: Some(("setup".into(), "service could not be built".into())), nontrivial: false, tags: vec![] };
+    }
+    let out: Vec<String> = gots.iter().enumerate().map(|(k, g)| show(k, &case.streams[k], g, case.raw)).collect();
+    let mut res = CaseResult::ok(if out.is_empty() { "-".to_owned() } else { out.join(";") });
+    res.nontrivial = gots.iter().any(|g| !g.body.is_empty());
+    for (k, (s, g)) in case.streams.iter().zip(&gots).enumerate() {
+        if let Some((sig, d)) = oracle(k, s, g, case.raw, case.w as usize) {
+            res = res.fail(&sig, d);
+        }
+        res.tags.push(format!("end:{}", g.end));
+        res.tags.push(format!("kind:{:?}", s.kind));
+    }
+    if case.raw {
+        // the assumptions `OracleContract.positive` / `.bounded` of Props/C08.lean, on the real h2 crate
+        for (k, want, cap) in &polls {
+            if *cap < 1 || cap > want {
+                res = res.fail("h2-contract", format!("stream {k}: reserve_capacity({want}) answered by poll_capacity -> {cap}"));
+            }
+        }
+        res.tags.push("mode:raw-h2-contract".into());
+        if polls.iter().any(|(_, want, cap)| cap < want) {
+            res.tags.push("contract:partial-grant-seen".into());
+        }
+        res.tags.push(format!("contract-polls:{}", match polls.len() { 0 => "0", 1..=9 => "1-9", 10..=99 => "10-99", _ => "100+" }));
+    }
+    res.tags.push(format!("streams:{}", case.streams.len()));
+    res.tags.push(format!("w:{}", case.w));
+    res
+}
+
+// ---------------------------------------------------------------------------------------------
+// generator
+
+const HDR_POOL: &[&str] = &[
+    "connection=close",
+    "connection=keep-alive",
+    "transfer-encoding=chunked",
+    "upgrade=h2c",
+    "keep-alive=timeout5",
+    "proxy-connection=keep-alive",
+    "x-a=1",
+    "x-a=2",
+    "x-b=3",
+    "content-type=text/plain",
+    "date=d1",
+    "cache-control=no-store",
+];
+
+fn gen_stream(rng: &mut Rng, w: usize, big: bool, hold_ok: bool) -> String {
+    let method = match rng.below(20) {
+        0..=2 => "H".to_owned(),
+        3 => format!("P{}", *rng.pick(&[0usize, 10, 3000])),
+        _ => "G".to_owned(),
+    };
+    let status = *rng.pick(&[200u16, 200, 200, 200, 200, 201, 206, 404, 500, 204, 204, 304, 304]);
+    let kind = *rng.pick(&["n", "u", "b", "b", "ss", "ss", "bs", "bs", "bs", "xs", "xs", "xs", "xz", "xz"]);
+    let streaming = matches!(kind, "ss" | "bs" | "xs" | "xz");
+    let reset = rng.chance(1, 8);
+    // chunk lengths around the window and CHUNK_SIZE; bounded by what a tiny window can move in reasonable time
+    let cap: usize = if w <= 7 { 120 } else if w < 1000 { 2000 } else if big { 140_000 } else { 40_000 };
+    let lens: Vec<usize> = [0, 0, 1, 2, 5, w.saturating_sub(1), w, w + 1, 2 * w + 3, 100, 16_383, 16_384, 16_385, 32_768, 65_535, 65_536, 100_000]
+        .iter()
+        .copied()
+        .filter(|n| *n <= cap)
+        .collect();
+    let n_items = if kind == "n" || kind == "u" { 0 } else if kind == "b" { 1 } else { rng.below(7) };
+    let mut items: Vec<String> = Vec::new();
+    let mut tot = 0usize;
+    let mut has_err = false;
+    for _ in 0..n_items {
+        let r = rng.below(20);
+        if streaming && r < 3 {
+            items.push("p".into());
+        } else if streaming && r == 3 && !reset {
+            items.push("e".into());
+            has_err = true;
+            break;
+        } else {
+            let n = *rng.pick(&lens);
+            if tot + n <= 2 * cap {
+                tot += n;
+                items.push(n.to_string());
+            }
+        }
+    }
+    let _ = has_err;
+    let mut hdrs: Vec<String> = Vec::new();
+    for _ in 0..rng.below(5) {
+        hdrs.push((*rng.pick(HDR_POOL)).to_owned());
+    }
+    if rng.chance(1, 4) {
+        // a handler-set content-length: the truth for stream-sized bodies (kept), a lie for sized ones (replaced)
+        if matches!(kind, "bs" | "xs") || status == 304 {
+            hdrs.push(format!("content-length={tot}"));
+        } else {
+            hdrs.push(format!("content-length={}", tot + 3));
+        }
+    }
+    let mut client: Vec<String> = Vec::new();
+    match rng.below(4) {
+        0 | 1 => client.push("a".into()),
+        2 => client.push(format!("b{}", *rng.pick(&[1usize, 5, w / 2 + 1, w, 3 * w, 1_000_000]))),
+        _ => client.push("b1000000".into()),
+    }
+    if rng.chance(1, 3) {
+        client.push(format!("d{}", *rng.pick(&[1u64, 3, 50, 500])));
+    }
+    if reset {
+        client.push(format!("r{}", *rng.pick(&[0usize, 1, tot / 2, tot, tot + 1])));
+    } else if hold_ok && rng.chance(1, 8) {
+        client = vec!["h".to_owned()];
+    }
+    format!(
+        "s:{method}:{status}:{kind}:{}:{}:{}",
+        if items.is_empty() { "-".to_owned() } else { items.join(".") },
+        if hdrs.is_empty() { "-".to_owned() } else { hdrs.join(",") },
+        client.join(".")
+    )
+}
+
+fn gen(ctx: &Ctx) -> Vec<String> {
+    let mut rng = Rng::new(ctx.seed);
+    let mut cases = Vec::new();
+    // systematic part: every body kind x status class x method x window, fixed small scripts
+    for w in [1usize, 7, 16_384, 65_535] {
+        for kind in ["n", "u", "b", "ss", "bs", "xs", "xz"] {
+            for status in [200u16, 204, 304] {
+                for m in ["G", "H"] {
+                    let items = match kind {
+                        "n" | "u" => "-",
+                        "b" => "40",
+                        _ => "5.0.p.30.0.4",
+                    };
+                    // a handler-set content-length: a lie on sized bodies (must be replaced), the truth on stream bodies (kept)
+                    let cl = if matches!(kind, "bs" | "xs") { 39 } else { 9 };
+                    cases.push(format!("w={w} s:{m}:{status}:{kind}:{items}:connection=close,x-a=1,content-length={cl},x-a=2:a"));
+                }
+            }
+        }
+        // chunk sizes around the window and around CHUNK_SIZE, released only when stalled
+        for n in [w.saturating_sub(1).max(1), w, w + 1, 2 * w + 1] {
+            if n <= 140_000 {
+                cases.push(format!("w={w} s:G:200:xs:{n}.{n}:-:b1000000 s:G:200:b:{n}:-:a"));
+            }
+        }
+    }
+    for n in [16_383usize, 16_384, 16_385, 32_768, 32_769, 49_153] {
+        cases.push(format!("w=1000000 cw=1000000 s:G:200:xs:{n}:-:a s:G:200:xz:{n}.1:-:b1000000"));
+    }
+    // random part
+    let n = match ctx.tier {
+        Tier::Quick => 3000,
+        _ => ctx.budget(3000),
+    };
+    for i in 0..n {
+        let w = match rng.below(12) {
+            0 | 1 => 1usize,
+            2 | 3 => 7,
+            4 | 5 | 6 => 16_384,
+            7 | 8 | 9 => 65_535,
+            _ => *rng.pick(&[2usize, 100, 16_383, 16_385, 70_000, 1 << 20]),
+        };
+        let mut toks = vec![format!("w={w}")];
+        if rng.chance(1, 3) {
+            toks.push(format!("cw={}", *rng.pick(&[1000u32, 65_535, 70_000, 1 << 20])));
+        }
+        if rng.chance(1, 3) {
+            toks.push(format!("pipe={}", *rng.pick(&[17usize, 64, 1024, 16_384])));
+        }
+        if rng.chance(1, 6) {
+            toks.push(format!("sw={}", *rng.pick(&[1u32, 100, 1000])));
+        }
+        if rng.chance(1, 6) {
+            toks.push("raw".to_owned());
+        }
+        let ns = rng.range(1, 4);
+        let big = i % 8 == 0;
+        // a stream whose window is never reopened: at most one, and only where it cannot exhaust the
+        // connection-level window that its siblings share (that would be HTTP/2's doing, not actix's)
+        let mut hold_ok = w <= 16_384 && !toks.iter().any(|t| t.starts_with("cw="));
+        for _ in 0..ns {
+            let t = gen_stream(&mut rng, w, big, hold_ok);
+            if t.ends_with(":h") {
+                hold_ok = false;
+            }
+            toks.push(t);
+        }
+        cases.push(toks.join(" "));
+    }
+    cases
+}
 
 pub fn prop() -> Prop {
-    Prop {
-        rule: "unimplemented",
-        parallel: false,
-        gen: Box::new(|_| Vec::new()),
-        run: Box::new(|_| CaseResult::ok("unimplemented".to_owned())),
-    }
+    Prop { rule: RULE, parallel: true, gen: Box::new(gen), run: Box::new(run) }
 }
